@@ -128,6 +128,8 @@ mod sharded_set;
 mod small_bytes;
 pub mod string;
 pub mod string_key;
+#[cfg(feature = "isographlabs_isograph_verif")]
+pub mod verif_hook;
 #[doc(hidden)]
 pub use crate::atomic_arena::Zero;
 #[doc(inline)]
